@@ -17,7 +17,7 @@ def sh(cmd, **kw):
                           text=True, **kw)
 
 
-def trial(sid, d, pid, extra=()):
+def trial(sid, d, pid, checks=None):
     log = []
     assert sh('git -C /repo diff --quiet').returncode == 0, 'repo not clean'
     r = sh(f'git -C /repo apply {d}/patch.diff')
@@ -30,7 +30,7 @@ def trial(sid, d, pid, extra=()):
         dm = sh(f'PYTHONPATH=/repo/src /venv/bin/python {d}/demo.py 2>&1 | tail -4')
         res['demo_rc_changed'] = sh(f'PYTHONPATH=/repo/src /venv/bin/python {d}/demo.py >/dev/null 2>&1; echo $?').stdout.strip()
         res['demo_tail'] = dm.stdout.strip()[-400:]
-        for p in list(dict.fromkeys(REL[pid] + list(extra))):
+        for p in (checks or REL[pid]):
             c = sh(f'cd /verif && ./check {p} --tier quick 2>&1')
             lines = [l for l in c.stdout.strip().splitlines() if not l.startswith('WARNING')]
             viol = [l for l in lines if l.startswith('VIOLATION')]
@@ -54,7 +54,12 @@ def trial(sid, d, pid, extra=()):
 
 
 def main():
-    only = sys.argv[1:]
+    only, override = [], {}
+    for a in sys.argv[1:]:          # C01-b  or  C01-b=C07,C15 (checks to run)
+        sid, _, chk = a.partition('=')
+        only.append(sid)
+        if chk:
+            override[sid] = chk.split(',')
     for n in range(1, 21):
         pid = f'C{n:02d}'
         src = f'/tmp/mutout_{pid}'
@@ -76,7 +81,13 @@ def main():
             if os.path.exists(nf):
                 shutil.copy(nf, f'{d}/notes.md')
             print('==', sid, flush=True)
-            res = trial(sid, d, pid)
+            res = trial(sid, d, pid, override.get(sid))
+            prev = f'{d}/trial.json'
+            if os.path.exists(prev):
+                # keep earlier runs: the history of what caught it when
+                old = json.load(open(prev))
+                res['earlier_runs'] = old.get('earlier_runs', []) + [
+                    {k: v for k, v in old.items() if k != 'earlier_runs'}]
             json.dump(res, open(f'{d}/trial.json', 'w'), indent=1)
             print(json.dumps({k: v for k, v in res.items() if k != 'checks'})[:300])
             for p, c in res.get('checks', {}).items():
